@@ -149,7 +149,10 @@ func (w *World) setup() {
 	seeds := c.Sub("seeds")
 	for i, nd := range w.nodes {
 		if nd.byz {
-			w.byz[i] = &Byz{idx: i, realShares: map[int][]byte{}, torsionFor: -1, bias: map[string]int{}}
+			w.byz[i] = &Byz{idx: i, realShares: map[int][]byte{}, torsionFor: -1, resendFor: -1, bias: map[string]int{}}
+			if w.o.Mode == "adv" && !fermat && w.isDealer(i) && c.Bool(1, 8, "resend") {
+				w.byz[i].resendFor = c.Choose(w.n, "resend.for")
+			}
 			if fermat {
 				// the torsion pair is this participant's ONLY misbehaviour: anything else would get
 				// the dealer disqualified for an unrelated reason
